@@ -1983,7 +1983,9 @@ func (r *Repository) ResolveRevision(in plumbing.Revision) (*plumbing.Hash, erro
 				commit = c
 			}
 		case revision.CaretReg:
-			history := object.NewCommitPreorderIter(commit, nil, nil)
+			// git takes the youngest matching commit, not the first one
+			// along the first-parent chain.
+			history := object.NewCommitIterCTime(commit, nil, nil)
 
 			re := item.Regexp
 			negate := item.Negate
